@@ -437,6 +437,33 @@ class CFG:
                     work.append(v)
         return set(state[target] or ())
 
+    def copy_source(self, name: str, at: int, depth: int = 0) -> str:
+        """Follow plain copies backwards: if the only definition of `name` reaching node `at` is `name = other` (or a tuple assignment
+        giving it `other`), and `other` has not been re-bound between that definition and `at`, return copy_source(other); else name."""
+        if depth > 6:
+            return name
+        rd = self.reaching_defs(name).get(at, set())
+        if len(rd) != 1:
+            return name
+        d = next(iter(rd))
+        st = self.nodes[d].ast
+        if not isinstance(st, ast.Assign) or len(st.targets) != 1:
+            return name
+        t, v = st.targets[0], st.value
+        src = None
+        if isinstance(t, ast.Name) and t.id == name and isinstance(v, ast.Name):
+            src = v.id
+        elif isinstance(t, (ast.Tuple, ast.List)) and isinstance(v, (ast.Tuple, ast.List)) and len(t.elts) == len(v.elts):
+            for a, b in zip(t.elts, v.elts):
+                if isinstance(a, ast.Name) and a.id == name and isinstance(b, ast.Name):
+                    src = b.id
+        if src is None or src == name:
+            return name
+        # `src` must still hold the same object at `at`: its reaching definitions at `at` equal those at the copy
+        if self.reaching_defs(src).get(at, set()) != self.reaching_defs(src).get(d, set()):
+            return name
+        return self.copy_source(src, d, depth + 1)
+
     def reachable_avoiding_edges(self, start: int, blocked) -> set[int]:
         """Nodes reachable from `start` along edges for which blocked(u, v, cond) is false (cond is (test expr, polarity) for
         branch edges, None or a (str, ...) marker otherwise)."""
